@@ -40,6 +40,7 @@ def handle (w32 : Bool) : List String → String
     | none => "bad-op"
   | "hl" :: _ => "ok"
   | "co" :: _ => "ok"
+  | "tr" :: _ => "ok"
   | _ => "bad-op"
 
 end Bee2V.C07.Drv
